@@ -714,6 +714,28 @@ impl TypeSpace {
             }
         }
 
+        // A definition (or the root) can also collide with the derived name of
+        // an inline type created while converting another definition of this
+        // batch (e.g. definition `FooBar` and property `bar` of `Foo`). Every
+        // named type created by this call must have its own name.
+        let mut created_names = BTreeSet::<String>::new();
+        for index in base_id..self.next_id {
+            let entry_name = self
+                .id_to_entry
+                .get(&TypeId(index))
+                .and_then(TypeEntry::name);
+            if let Some(entry_name) = entry_name {
+                if !created_names.insert(entry_name.clone()) {
+                    return Err(Error::InvalidSchema {
+                        type_name: Some(entry_name.clone()),
+                        reason: "a definition and the derived name of an inline type \
+                                 map to the same type name"
+                            .to_string(),
+                    });
+                }
+            }
+        }
+
         // Eliminate cycles. It's sufficient to only start from referenced
         // types as a reference is required to make a cycle.
         #[cfg(feature = "verif-hooks")]
